@@ -109,6 +109,8 @@ def build(variant, repo=None, quiet=True):
     jobs.append((os.path.join(repo, 'src', 'parameters.c'), os.path.join(tmp, 'k_parameters.o'), kflags + ['-w']))
     for s in SIM_SRC + extra:
         jobs.append((os.path.join(SIM, s), os.path.join(tmp, 's_' + s[:-2] + '.o'), sflags + ['-Wall', '-Wextra', '-Wno-unused-parameter', '-I' + SIM]))
+    # the runtime self-test is compiled like kalign code (same -fopenmp / sanitizer flags): the compiler emits the libgomp calls
+    jobs.append((os.path.join(SIM, 'omptest.c'), os.path.join(tmp, 's_omptest.o'), kflags + ['-Wall']))
     log = []
     def cc(j):
         src, obj, fl = j
